@@ -78,6 +78,20 @@ def run(run, replay=None):
     conv = {}
     for s, r in zip(inputs, impl):
         conv[s] = cl.from_cps(r[3:]) if r.startswith("ok") else None
+    # the model's canonical decomposition (decompKana, used by C17_nfd) against Unicode NFD: every character of the kana block,
+    # ASCII, and a sample of the input strings
+    nfd_in = [chr(c) for c in range(0x3040, 0x3100) if c not in (0x3099, 0x309A)] + list(ASCII) + \
+             [x for x in base[::11] if x] + [to_kata(x) for x in base[::13] if x]
+    nfd_model = run.run_driver(["nfd " + cl.cps(x) for x in nfd_in])
+    nfd_bad = []
+    if nfd_model is not None:
+        for x, r in zip(nfd_in, nfd_model):
+            if r.strip() != ("ok " + cl.cps(unicodedata.normalize("NFD", x))).strip():
+                nfd_bad.append({"input": [hex(ord(c)) for c in x], "model": r, "unicode_nfd": [hex(ord(c)) for c in unicodedata.normalize("NFD", x)]})
+    hist["nfd_model_checked"] = len(nfd_in)
+    if nfd_bad:
+        run.failures.append(cl.Failure("correspondence", "the model's decomposition decompKana (theorem C17_nfd) differs from Unicode NFD on %d "
+                                       "inputs, e.g. %s" % (len(nfd_bad), json.dumps(nfd_bad[0])[:300]), detail=json.dumps(nfd_bad[:5])))
     # arbitrary Unicode: implementation only (totality)
     uni = []
     for _ in range(5000 if thorough else 500):
